@@ -168,8 +168,23 @@ func (e *sysEnv) remotePort(s sspec) int {
 	}
 }
 
+// healthOmit: names >= 10 are health-checked tcp proxies against the echo backend; (name-10) is the
+// bit set of intervalSeconds / timeoutSeconds / maxFailed left unset
 func (e *sysEnv) build(s sspec) v1.ProxyConfigurer {
 	c := &v1.TCPProxyConfig{}
+	if s.name >= 10 {
+		omit := s.name - 10
+		c.HealthCheck = v1.HealthCheckConfig{Type: "tcp", IntervalSeconds: 1, TimeoutSeconds: 1, MaxFailed: 2}
+		if omit&1 != 0 {
+			c.HealthCheck.IntervalSeconds = 0
+		}
+		if omit&2 != 0 {
+			c.HealthCheck.TimeoutSeconds = 0
+		}
+		if omit&4 != 0 {
+			c.HealthCheck.MaxFailed = 0
+		}
+	}
 	c.Name = fmt.Sprintf("p%d", s.name)
 	c.Type = "tcp"
 	c.LocalIP = sysEchoAddr
@@ -345,6 +360,60 @@ func echoOnce(c net.Conn, payload string) bool {
 
 func (e *sysEnv) dial(s sspec) (net.Conn, error) {
 	return net.DialTimeout("tcp", net.JoinHostPort(sysSrvAddr, fmt.Sprint(e.remotePort(s))), 2*time.Second)
+}
+
+// health-checked proxies (real monitors, real backend) with every subset of the three optional
+// fields unset; the same set is loaded again twice from fresh objects, as a reload of an unchanged
+// file does: no request may reach the server, the open connections keep working
+func runHealthReload(stable time.Duration) (finds []sysFinding, err error) {
+	set := []sspec{{0, 0}}
+	for omit := 0; omit < 8; omit++ {
+		set = append(set, sspec{10 + omit, 0})
+	}
+	tag := "health-checked proxies with unset intervalSeconds/timeoutSeconds/maxFailed, identical reloads"
+	e, err := newSysEnv(set)
+	if err != nil {
+		return nil, err
+	}
+	defer e.close()
+	for _, s := range set {
+		if !e.cli.WaitProxyRunning(fmt.Sprintf("p%d", s.name), 5*time.Second) {
+			return []sysFinding{{"system:health-checked-proxy-not-registered", fmt.Sprintf("p%d not running 5 s after its backend answered the first probe", s.name), tag}}, nil
+		}
+	}
+	e.quiesce(stable)
+	e.plug.take()
+	conns := map[int]net.Conn{}
+	for _, s := range set {
+		c, err := e.dial(s)
+		if err != nil || !echoOnce(c, "before-reload") {
+			finds = append(finds, sysFinding{"system:tunnel-not-usable", fmt.Sprintf("no echo through running proxy p%d", s.name), tag})
+			continue
+		}
+		conns[s.name] = c
+	}
+	defer func() {
+		for _, c := range conns {
+			c.Close()
+		}
+	}()
+	for round := 1; round <= 2; round++ {
+		if err := e.reload(set); err != nil {
+			return nil, err
+		}
+		e.quiesce(stable)
+		for _, x := range e.plug.take() {
+			finds = append(finds, sysFinding{"system:unchanged-proxy-re-registered",
+				fmt.Sprintf("identical reload %d: the server handled %s for %s", round, []string{"", "NewProxy", "CloseProxy"}[x.kind], x.name), tag})
+		}
+		for n, c := range conns {
+			if !echoOnce(c, "after-reload") {
+				finds = append(finds, sysFinding{"system:open-connection-interrupted",
+					fmt.Sprintf("identical reload %d: the connection opened through p%d before the reload no longer carries traffic", round, n), tag})
+			}
+		}
+	}
+	return finds, nil
 }
 
 // ---- scenarios ----
@@ -640,6 +709,24 @@ func runSystem(cfg *hx.RunCfg) error {
 			report(f)
 		}
 		dist["held-reply-scenarios"]++
+	}
+	{
+		var finds []sysFinding
+		for _, st := range stables {
+			f, err := runHealthReload(st)
+			if err != nil {
+				return err
+			}
+			finds = f
+			if len(f) == 0 {
+				break
+			}
+			dist["rerun"]++
+		}
+		for _, f := range finds {
+			report(f)
+		}
+		dist["health-checked-identical-reload-scenarios"]++
 	}
 	// F-C19c (Properties/C19.v: C19_converges_with_async_replies_refuted), replayed on the real code:
 	// proxy p1 is changed by a reload while the NewProxy of the replaced wrapper is unanswered, and
